@@ -5,6 +5,8 @@
 package rruntime
 
 import (
+	"github.com/siderolabs/gen/optional"
+
 	"github.com/cosi-project/runtime/pkg/controller"
 	"github.com/cosi-project/runtime/pkg/controller/runtime/internal/reduced"
 	"github.com/cosi-project/runtime/pkg/controller/runtime/metrics"
@@ -14,9 +16,11 @@ import (
 type watchKey struct {
 	Namespace resource.Namespace
 	Type      resource.Type
+	ID        optional.Optional[resource.ID]
 }
 
-func (adapter *Adapter) addWatchFilter(resourceNamespace resource.Namespace, resourceType resource.Type, filter reduced.WatchFilter) {
+// addWatchFilter registers the filter for the input (nil filter means the input is not filtered).
+func (adapter *Adapter) addWatchFilter(resourceNamespace resource.Namespace, resourceType resource.Type, resourceID optional.Optional[resource.ID], filter reduced.WatchFilter) {
 	adapter.watchFilterMu.Lock()
 	defer adapter.watchFilterMu.Unlock()
 
@@ -24,24 +28,31 @@ func (adapter *Adapter) addWatchFilter(resourceNamespace resource.Namespace, res
 		adapter.watchFilters = make(map[watchKey]reduced.WatchFilter)
 	}
 
-	adapter.watchFilters[watchKey{resourceNamespace, resourceType}] = filter
+	adapter.watchFilters[watchKey{resourceNamespace, resourceType, resourceID}] = filter
 }
 
-func (adapter *Adapter) deleteWatchFilter(resourceNamespace resource.Namespace, resourceType resource.Type) {
+func (adapter *Adapter) deleteWatchFilter(resourceNamespace resource.Namespace, resourceType resource.Type, resourceID optional.Optional[resource.ID]) {
 	adapter.watchFilterMu.Lock()
 	defer adapter.watchFilterMu.Unlock()
 
-	delete(adapter.watchFilters, watchKey{resourceNamespace, resourceType})
+	delete(adapter.watchFilters, watchKey{resourceNamespace, resourceType, resourceID})
 }
 
-// WatchTrigger is called by common controller runtime when there is a change in the watched resources.
+// WatchTrigger is called to notify the controller about the change in the watched resource.
+//
+// The event is dropped only if every input it matches (by kind and by ID) is filtered and rejects it.
 func (adapter *Adapter) WatchTrigger(md *reduced.Metadata) {
 	adapter.watchFilterMu.Lock()
 	defer adapter.watchFilterMu.Unlock()
 
-	if adapter.watchFilters != nil {
-		if filter := adapter.watchFilters[watchKey{md.Namespace, md.Typ}]; filter != nil && !filter(md) {
-			// skip reconcile if the event doesn't match the filter
+	kindFilter, kindInput := adapter.watchFilters[watchKey{md.Namespace, md.Typ, optional.None[resource.ID]()}]
+	idFilter, idInput := adapter.watchFilters[watchKey{md.Namespace, md.Typ, optional.Some(md.ID)}]
+
+	if kindInput || idInput {
+		passed := kindInput && (kindFilter == nil || kindFilter(md)) ||
+			idInput && (idFilter == nil || idFilter(md))
+
+		if !passed {
 			return
 		}
 	}
